@@ -271,10 +271,10 @@ func TestCrossHeartbeatLeaveGroupFieldOrder(t *testing.T) {
 			t.Fatal(err)
 		}
 		r := m.(*heartbeat.Response)
-		if r.ErrorCode == 27 && r.ThrottleTimeMs == 0 {
-			t.Errorf("Heartbeat v%d: kafka-go now reads the Kafka field order; remove DISAGREEMENTS.md #5", ver)
-		} else if r.ErrorCode != 0 || r.ThrottleTimeMs != 27 {
-			t.Errorf("Heartbeat v%d: unexpected %+v", ver, r)
+		// (DISAGREEMENTS.md #5 was repaired in kafka-go by a "fix:" commit: the
+		// Kafka field order is now the expectation)
+		if r.ErrorCode != 27 || r.ThrottleTimeMs != 0 {
+			t.Errorf("Heartbeat v%d: kafka-go does not read the Kafka field order: %+v", ver, r)
 		}
 
 		frame, _, err = EncodeResponse(13, ver, 1, Msg{"throttle_time_ms": int32(0), "error_code": int16(25)}, nil)
@@ -286,10 +286,8 @@ func TestCrossHeartbeatLeaveGroupFieldOrder(t *testing.T) {
 			t.Fatal(err)
 		}
 		l := m.(*leavegroup.Response)
-		if l.ErrorCode == 25 && l.ThrottleTimeMS == 0 {
-			t.Errorf("LeaveGroup v%d: kafka-go now reads the Kafka field order; remove DISAGREEMENTS.md #5", ver)
-		} else if l.ErrorCode != 0 || l.ThrottleTimeMS != 25 {
-			t.Errorf("LeaveGroup v%d: unexpected %+v", ver, l)
+		if l.ErrorCode != 25 || l.ThrottleTimeMS != 0 {
+			t.Errorf("LeaveGroup v%d: kafka-go does not read the Kafka field order: %+v", ver, l)
 		}
 	}
 	// v0 has no throttle time: both agree
